@@ -14,6 +14,12 @@ import (
 // isInterplay says whether a corpus package is one of the hand-written ones
 // (no checker of its own; many checkers on the same nodes).
 func isInterplay(name string) bool {
+	return isHandWritten(name) || strings.HasPrefix(name, "r_")
+}
+
+// isHandWritten: the packages written for this corpus (x_: main module, o_: old-go module);
+// r_ packages are real code of the standard library.
+func isHandWritten(name string) bool {
 	return strings.HasPrefix(name, "x_") || strings.HasPrefix(name, "o_")
 }
 
@@ -23,7 +29,7 @@ func (w *Worker) visitSchedule() []string {
 	if w.schedule == nil {
 		for _, n := range w.index.Names {
 			w.schedule = append(w.schedule, n)
-			if isInterplay(n) && n != probePkg {
+			if isHandWritten(n) && n != probePkg {
 				w.schedule = append(w.schedule, n, n)
 			}
 		}
